@@ -223,6 +223,7 @@ prop("C09", "The parsed tree reflects the program, not its layout", [
     ("statement_same_before_LF_or_CR", "stmt_cut_at_line_end", "a statement (no braces, no semicolon) followed by LF or CR -- hence also CR LF -- is cut out as exactly that statement"),
     ("statement_same_at_end_of_text", "stmt_cut_at_eof", "the same statement at the very end of the text, without a final newline"),
     ("statement_same_before_semicolon", "stmt_cut_at_semicolon", "and followed by `;` and anything brace-free up to the end of the line"),
+    ("comment_line_is_opaque", "comment_line_is_opaque", "a whole-line // or # comment is one control line whatever it contains -- braces, semicolons, text that looks like code (D45)"),
     ("header_cut_at_its_brace", "header_cut_at_brace", "a block header is cut at its opening brace (the first one not preceded by a dot), whatever follows on the line"),
 ], imports=PARSER_IMPORTS)
 
